@@ -1,22 +1,26 @@
-// h_smoke: builds the whole stack (everything that imports pkg/sleep) to check the overlay.
+// h_smoke: builds the whole stack through the overlay and pings it; used to check the plumbing.
 package main
 
 import (
 	"fmt"
+	"io"
+	"log"
 
-	"github.com/brewlin/net-protocol/protocol/network/arp"
-	"github.com/brewlin/net-protocol/protocol/network/ipv4"
-	"github.com/brewlin/net-protocol/protocol/network/ipv6"
-	"github.com/brewlin/net-protocol/protocol/transport/tcp"
-	"github.com/brewlin/net-protocol/protocol/transport/udp"
-	"github.com/brewlin/net-protocol/protocol/link/fdbased"
-	_ "github.com/brewlin/net-protocol/protocol/application/http"
-	_ "github.com/brewlin/net-protocol/protocol/application/websocket"
-	"github.com/brewlin/net-protocol/stack"
+	"aaverif/internal/netx"
 )
 
 func main() {
-	s := stack.New([]string{ipv4.ProtocolName, ipv6.ProtocolName, arp.ProtocolName}, []string{tcp.ProtocolName, udp.ProtocolName}, stack.Options{})
-	_ = fdbased.New
-	fmt.Println("stack ok", s != nil)
+	log.SetOutput(io.Discard)
+	n := netx.NewNet(netx.Opts{Addr6: "\xfe\x80\x00\x00\x00\x00\x00\x00\x00\x00\x00\x00\x00\x00\x00\x01"})
+	echo := []byte{8, 0, 0, 0, 0x12, 0x34, 0, 1, 'h', 'i'}
+	c := ^netx.Sum16(echo, 0)
+	echo[2], echo[3] = byte(c>>8), byte(c)
+	n.L.Inject(netx.ProtoIPv4, netx.IPv4Packet([]byte{10, 0, 0, 2}, []byte{10, 0, 0, 1}, 1, 7, 0, 64, echo))
+	for i := 0; i < 1000000; i++ {
+		if f := n.L.Take(); len(f) > 0 {
+			fmt.Println("reply", f[0].Proto, f[0].Bytes)
+			return
+		}
+	}
+	fmt.Println("no reply")
 }
